@@ -11,6 +11,7 @@ package checks
 import (
 	"encoding/json"
 	"fmt"
+	"io"
 	"net"
 	"net/url"
 	"os"
@@ -18,6 +19,7 @@ import (
 	"strconv"
 	"strings"
 	"sync"
+	"time"
 
 	"github.com/magisterquis/curlrevshell/lib/opshell"
 	"github.com/magisterquis/curlrevshell/verifx/ev"
@@ -266,6 +268,7 @@ func c10(r *ev.Result, tier string) {
 	r.Evaluations += nz
 	r.Distinct += nz
 	r.Set("zoned_client_address_cases", nz)
+	r.Set("handshake_burst_clients_checked", c10HandshakeBurst(r))
 	/* The last seam: from the operator channel to the terminal, through
 	the real Shell. */
 	runTermSeam(r, "c10", 0, "c10term")
@@ -331,6 +334,20 @@ func c10Branches(r *ev.Result, base, fdir string, texts []string) int {
 			} else if nil == err {
 				c10Judge(r, c10Case{Position: "host-rejected", Text: t}, w.Drain(), "", "")
 				n++
+			}
+			/* The same text in a label that claims to be punycode: the
+			name cannot be converted, the error branch reports it. */
+			for _, host := range []string{"xn--" + t + ".example.com", "sub.xn--" + t} {
+				c, err := w.Dial("")
+				if nil != err {
+					ev.Broken("%s", err)
+				}
+				_, err = c.Do(hworld.Get("/c", host))
+				c.Close()
+				if nil == err {
+					c10Judge(r, c10Case{Position: "host-punycode-label", Text: host}, w.Drain(), "", "")
+					n++
+				}
 			}
 		}
 	}
@@ -440,7 +457,90 @@ func c10ZonedClient(r *ev.Result, fdir string) int {
 	return n
 }
 
+// c10HandshakeBurst: many clients fail the TLS handshake at the same moment;
+// the server's error log reports each of them, and each notice names its own
+// client (the address is the client's text here).  A sampling complement for
+// whatever the notices share on their way to the operator.
+func c10HandshakeBurst(r *ev.Result) int {
+	w, err := hworld.Start(hworld.Config{OchCap: 1 << 14})
+	if nil != err {
+		ev.Broken("%s", err)
+	}
+	defer w.Stop()
+	n := 0
+	for round := 0; round < 6; round++ {
+		const clients = 48
+		var (
+			wg    sync.WaitGroup
+			mu    sync.Mutex
+			addrs []string
+		)
+		start := make(chan struct{})
+		for i := 0; i < clients; i++ {
+			wg.Add(1)
+			go func() {
+				defer wg.Done()
+				c, err := net.DialTimeout("tcp", w.Addr, hworld.Watchdog)
+				if nil != err {
+					return
+				}
+				defer c.Close()
+				mu.Lock()
+				addrs = append(addrs, c.LocalAddr().String())
+				mu.Unlock()
+				<-start
+				c.Write([]byte("GET / HTTP/1.0\r\n\r\n"))
+				c.SetReadDeadline(time.Now().Add(hworld.Watchdog))
+				io.Copy(io.Discard, c)
+			}()
+		}
+		/* Everybody connected? then all at once. */
+		for deadline := time.Now().Add(hworld.Watchdog); time.Now().Before(deadline); time.Sleep(time.Millisecond) {
+			mu.Lock()
+			k := len(addrs)
+			mu.Unlock()
+			if k == clients {
+				break
+			}
+		}
+		close(start)
+		wg.Wait()
+		seen := map[string]int{}
+		got := 0
+		w.WaitNotice(func(cl opshell.CLine) bool {
+			if strings.Contains(cl.Line, "TLS handshake error from ") {
+				got++
+				for _, a := range addrs {
+					if strings.Contains(cl.Line, "from "+a+":") {
+						seen[a]++
+					}
+				}
+			}
+			return got >= len(addrs)
+		})
+		for _, a := range addrs {
+			if 1 != seen[a] {
+				var dup []string
+				for b, k := range seen {
+					if k > 1 {
+						dup = append(dup, fmt.Sprintf("%s x%d", b, k))
+					}
+				}
+				r.Violate(ev.Violation{Signature: "client-address-swapped/server-error", Kind: "c10burst", Replay: map[string]int{"clients_failing_the_handshake_at_once": clients},
+					What: fmt.Sprintf("%d clients failed the TLS handshake at the same moment: the client at %s is named in %d notices (others named more than once: %v); %d notices in all", len(addrs), a, seen[a], dup, got)})
+				return n
+			}
+			n++
+		}
+	}
+	return n
+}
+
 func c10Replay(kind string, raw json.RawMessage) int {
+	if "c10burst" == kind {
+		fmt.Println("the burst of failing handshakes is a sampling complement; it is replayed by re-running ./run C10 quick")
+		return 2
+	}
 	var c c10Case
 	if err := json.Unmarshal(raw, &c); nil != err {
 		return 2
